@@ -524,7 +524,6 @@ func mayBe(v ssa.Value, pred func(ssa.Value) bool) bool {
 	return rec(v, 0)
 }
 
-
 // onceBody: the function a literal or a method value handed to Once.Do runs: the literal itself, or - for a method
 // value x.m - the method m (the $bound wrapper only forwards to it).
 func onceBody(mk *ssa.MakeClosure) *ssa.Function {
